@@ -324,7 +324,7 @@ def run(tier, seed):
              'offsets 0..5. Oracle: an independent Python reading of each delimiter contract. distinct = (nest shape, outcome)',
         fragment='theorems hold for every inner construct and any nesting depth (FixedSized, Prefixed, NullStripped, ProcessXor(0) '
                  'layers for the absolute-offset theorem)',
-        partial=['NullTerminated scan and OffsettedEnd are covered by correspondence + oracle, not yet by a region theorem'])
+        partial=['NullTerminated with a terminator of several bytes (the unit-wise scan) is covered by correspondence + oracle; the region theorems are for one-byte terminators and for OffsettedEnd on seekable streams'])
 
 
 def replay(payload):
